@@ -244,3 +244,29 @@ Fixpoint cap_outs (cfg : cap_cfg) (st : cap_state) (h : list cap_in) : list (lis
   | [] => []
   | i :: r => snd (cap_step cfg st i) :: cap_outs cfg (fst (cap_step cfg st i)) r
   end.
+
+(* ---- ACK tokens with a leading '-' (C08 finding ack-removal-ignored) -------- *)
+(* strings.HasPrefix(cap, "-") : Some cap[1:] *)
+Definition ack_removed (tok : str) : option str :=
+  match tok with
+  | b :: name => if N.eqb b 45 then Some name else None
+  | [] => None
+  end.
+
+(* The body of handleCAP's ACK loop without (aware = false: the CURRENT code, equal to
+   ack_step above) and with (aware = true) the branch added by
+   notes/proposed-fixes/cap-ack-removal.diff:
+       if strings.HasPrefix(cap, "-") { delete(c.state.enabledCap, cap[1:]); continue }
+   When that patch is applied to /repo, ack_step above becomes
+       Definition ack_step tmp en tok := ack_step_gen true tmp en tok.
+   and Spec/CapSpec.v ack_removal_aware becomes true; Proofs/CapProofs.v ack_step_matches
+   fails to compile if the two disagree. *)
+Definition ack_step_gen (aware : bool) (tmp : capmap) (en : capmap) (tok : str) : capmap :=
+  match (if aware then ack_removed tok else None) with
+  | Some name => adel name en
+  | None =>
+      match aget tok tmp with
+      | Some v => aset tok v en
+      | None => aset tok None en
+      end
+  end.
